@@ -21,53 +21,22 @@ func c17(e *Env) {
 	p := e.P
 	fi := e.formatter()
 	// ---- R1
-	ob1 := r.Ob("R1", "formatter:os≡i-stream", "the producer's {os:} placeholder and the consumer's streaming {i:} placeholder resolve to the same pipe name: prefix(modifiers(FifoPath(ip)))")
-	if len(fi.problems) > 0 {
-		ob1.Unknown("-", strings.Join(fi.problems, ";"))
-	} else {
-		// render an alternative with inner choices resolved towards the FIFO path, ports normalised
-		var pick func(z *core.Sym) string
-		pick = func(z *core.Sym) string {
-			switch z.Op {
-			case "phi":
-				for _, a := range z.Args {
-					if strings.Contains(a.String(), fnFifoPath) {
-						return pick(a)
-					}
-				}
-				return z.String()
-			case "call":
-				var ps []string
-				for _, a := range z.Args {
-					ps = append(ps, pick(a))
-				}
-				return z.Name + "(" + strings.Join(ps, ", ") + ")"
-			}
-			st := z.String()
-			st = strings.ReplaceAll(st, "$outIPs", "$IPS")
-			st = strings.ReplaceAll(st, "$inIPs", "$IPS")
-			return st
-		}
-		var osAlt, iAlt, sel string
-		for _, alt := range fi.arms["os"] {
-			if strings.HasPrefix(alt.sym.String(), "prependParentDirPath(") {
-				osAlt = pick(alt.sym)
-			}
-		}
-		for _, alt := range fi.arms["i"] {
-			str := alt.sym.String()
-			if strings.HasPrefix(str, "prependParentDirPath(") && strings.Contains(str, fnFifoPath) {
-				iAlt = str
-				sel = pick(alt.sym)
-			}
-		}
+	ob1 := r.Ob("R1", "formatter:os≡i-stream", "the producer's {os:} placeholder and the consumer's streaming {i:} placeholder resolve to the same pipe name: the ../-prefixed, modifier-processed FifoPath of the IP")
+	if fi.ok(ob1) {
+		mayO, mustO, nO := fi.armFacts(fi.arm("os", true, false))
+		mayI, mustI, nI := fi.armFacts(fi.arm("i", true, false))
+		same := (mustO&(fvFifo|fvMods) == mustI&(fvFifo|fvMods)) && (mayO&fvPrefix != 0) == (mayI&fvPrefix != 0)
 		switch {
-		case osAlt == "" || iAlt == "":
-			ob1.Fail(core.FuncName(fi.fn), "the {os:} arm or the streaming {i:} alternative does not yield prefix(…FifoPath…): os="+trunc(osAlt, 100)+" i="+trunc(iAlt, 100))
-		case sel != osAlt:
-			ob1.Fail(core.FuncName(fi.fn), "producer and consumer name the pipe differently: os → "+trunc(osAlt, 160)+" ; i(stream) → "+trunc(sel, 160))
+		case nO == 0 || nI == 0:
+			ob1.Fail(fi.regexPos, "no substitution reachable for {os:} or for a streaming {i:}")
+		case mustO&fvFifo == 0 || mustI&fvFifo == 0:
+			ob1.Fail(fi.regexPos, "FifoPath is not certain on both sides: producer "+bitsStr(mustO)+", consumer "+bitsStr(mustI))
+		case mayO&(fvTemp|fvPath) != 0 || mayI&fvTemp != 0:
+			ob1.Fail(fi.regexPos, "another path function can be used: producer may "+bitsStr(mayO)+", consumer may "+bitsStr(mayI))
+		case !same:
+			ob1.Fail(fi.regexPos, "producer and consumer process the FIFO path differently: producer certain "+bitsStr(mustO)+" may "+bitsStr(mayO)+"; consumer certain "+bitsStr(mustI)+" may "+bitsStr(mayI))
 		default:
-			ob1.OK(core.FuncName(fi.fn), trunc(osAlt, 160))
+			ob1.OK(fi.regexPos, "both sides: certain "+bitsStr(mustO)+", prefix available")
 		}
 	}
 	ob1b := r.Ob("R1", "(*FileIP).FifoPath:template", "the pipe of an IP is <path>.fifo")
@@ -93,15 +62,15 @@ func c17(e *Env) {
 	}
 	ob2 := r.Ob("R2", "(*Process).Run:fifo+send≺go", "for every streaming output the FIFO is created and the IP sent downstream before the task goroutine starts")
 	isCreateFifo := func(n *core.Node) bool {
-		return n.Ctx == g.Root && n.Callee != nil && core.FuncName(n.Callee) == "(*FileIP).CreateFifo" && n.Kind != core.KAfter
+		return n.Callee != nil && core.FuncName(n.Callee) == "(*FileIP).CreateFifo" && n.Kind != core.KAfter
 	}
 	isGoExec := func(n *core.Node) bool { return n.IsGo && n.Callee == a.execute }
 	var streamSend []*core.Node
 	for _, n := range g.Nodes {
-		if n.Ctx != g.Root || n.Kind == core.KAfter {
+		if n.Kind == core.KAfter {
 			continue
 		}
-		if _, ok := isPortSend(n); ok && !strings.Contains(e.argSym(n, 1).String(), "[0]") {
+		if _, ok := isPortSend(n); ok && !strings.Contains(e.xargSym(n, 1).String(), "[0]") {
 			streamSend = append(streamSend, n)
 		}
 	}
